@@ -4,5 +4,5 @@ ORACLES = ['c04']
 def run(chk, ctx):
     chk.cov['rule'] = ("random elections weighted to near-quota totals (ballots = 0,+-1 mod seats+1) and to surplus transfers that land a candidate EXACTLY on the quota (searched per rule precision and quota formula) x all rules x arithmetics; scope: quota, "
                        "votes and statuses of every action; oracle: quota formula recomputed in Fraction, nobody holding a quota is excluded")
-    cc.run(chk, ctx, 'quota', ORACLES, 1000, 100000, families=['nearquota', 'nearquota', 'exactquota', 'exactquota', 'small', 'tie', 'chain', 'coalition'])
+    cc.run(chk, ctx, 'quota', ORACLES, 1000, 100000, families=['nearquota', 'nearquota', 'exactquota', 'exactquota', 'small', 'tie', 'chain', 'coalition', 'hugemult'])
 def replay(chk, payload): return cc.replay(chk, payload, ORACLES)
